@@ -13,4 +13,13 @@ PROPS = {
         "trusted": ["hand-written recognisers standing for the anchored regular expressions refRE/ocidirRE/schemeRE (Model/C15_Ref.v); Go regexp leftmost-first semantics is not modelled, the recognisers are validated differentially on every run"],
         "assumptions": COMMON_ASSUME + ["the print/re-parse round trip is checked on every accepted string by the implementation-side oracle; its Coq proof is not finished (DESIGN.md C15)"],
     },
+    "C20": {
+        "props": "Props/C20.v", "corr": ["Corr/C20.v"], "gen": ["digestpaths"], "cli": ["regctl"],
+        "gen_theorems": ["C20_all_digest_paths_validated over Gen/DigestPathSites.v"],
+        "trusted": ["model of Go path.Clean / filepath.Join (Linux) on byte lists (Model/C20_Paths.v), compared with the Go standard library on every run",
+                    "translator extract/digestpaths.go (go/ast shape matching of .Encoded()/.Hex()/tarOCILayoutDescPath sites and preceding Validate() calls)",
+                    "go-digest Validate modelled for the registered algorithms sha256/sha384/sha512"],
+        "assumptions": COMMON_ASSUME + ["containment is lexical: symlinks already present inside the output directory are excluded by the property's own text",
+                    "tar link entries are not materialised by archive.Extract (checked dynamically: no link appears)"],
+    },
 }
